@@ -58,7 +58,8 @@ def _run_batch(args):
             lines = open(os.path.join(bdir, "trace.diag.ndjson")).read().splitlines()
             raw = open(path).read().splitlines()
             for d in divs:
-                ctx = {"last_op": V.last_call_before(raw, d.get("line", 1))}
+                lo, lr = V.last_call_before(raw, d.get("line", 1), with_res=True)
+                ctx = {"last_op": lo, "last_res_ok": lr}
                 d["props"] = sorted(V.classify(d, ctx))
                 d["last_op"] = ctx["last_op"]
             if info.get("invariant"):
